@@ -3,7 +3,7 @@
 // Rules (DESIGN.md §3 C03), files c03.go (registration, shared helpers), c03_header.go
 // (R-C03-1..3), c03_request.go (R-C03-4, R-C03-5), c03_framing.go (R-C03-6),
 // c03_writeout.go (R-C03-7), c03_cache.go (R-C03-8),
-// c03_reader.go (R-C03-9), c03_coding.go (R-C03-12), c03_util.go (scope over helpers, loop forms, anchors by role).
+// c03_reader.go (R-C03-9), c03_coding.go (R-C03-12, R-C03-13), c03_util.go (scope over helpers, loop forms, anchors by role).
 //
 // Genuine defects found on the unchanged tree (all R-C03-6, demonstrated end to end, fixes in
 // /tmp/vw/C03/out/fix-{1,2,3}.diff; the rule stays as it is):
@@ -83,6 +83,7 @@ func c03(c *core.Ctx) string {
 	c.Rule("R-C03-6", "framing pairing: (a) a store of a length-changing reader (gzip) to http.Response.Body is paired on all paths with a store to ContentLength and a Set/Del of the Content-Length header of the same response; (b) every (*httpprot.Response).SetPayload call site outside httpprot is paired on all paths with a Set/Del of Content-Length on the same response, unless the response was created in the same function (NewResponse(nil)/BuildResponse) or SetPayload / the write-out normalises the header centrally")
 	c.Rule("R-C03-7", "write-out: every exit of muxInstance.serveHTTP runs the deferred write-out, which on every path copies the response header into the ResponseWriter's header, then calls WriteHeader(resp.StatusCode()), then io.Copy(w, resp.GetPayload()) — all three on the same response and the same writer")
 	c.Rule("R-C03-8", "cache isolation: header maps cross the boundary of the proxy's memory cache only by copy — every header stored into a cache entry (the struct (*MemoryCache).Load returns) is a fresh Clone, and the header of an entry is only ever cloned or inspected, never handed to a response, stored elsewhere, returned or modified in place")
+	c.Rule("R-C03-13", "coding labels (mirror of R-C03-12): a function that applies the gzip coding to an HTTP body (compressing reader) overwrites the Content-Encoding header with \"gzip\" (Header.Set) only in states where the message is known to carry no Content-Encoding (Get == \"\" / no values) — never after a mere 'does not contain gzip' test or untested; otherwise a body already coded with br/deflate is gzipped on top and relabelled gzip")
 	c.Rule("R-C03-12", "coding labels: a function that undoes the gzip coding of an HTTP body (decompressing reader) deletes the Content-Encoding header only in states where the label is known to be exactly \"gzip\" (label == \"gzip\" / EqualFold), never after a mere substring test or untested — otherwise a body labelled with several codings loses its whole label while only the gzip layer is undone")
 	c.Rule("R-C03-9", "body readers: in every io.Reader implementation of the module (Read(p []byte) (int, error)) the buffer is only ever advanced (p = p[k:]) by the count returned by the most recent write into the current buffer, and every count of bytes written reaches the returned total before it is overwritten and on every exit")
 	c.NotDecided = []string{
